@@ -145,6 +145,16 @@ func FindAccums(p *core.Program, fd *core.FuncDecl) []Accum {
 					matchedRecv = true
 				}
 				recv = core.RecvExpr(rc)
+			} else if rc, ok := ast.Unparen(recv).(*ast.CallExpr); ok {
+				// receiver is wrapper(…, X, Y) with wrapper ≡ X or X.MatchPrecision(Y)
+				if wf := core.Callee(info, rc); wf != nil && core.InModule(wf.Pkg()) {
+					if ai, bi, ok := isMatchWrapper(p, wf); ok && ai < len(rc.Args) && bi < len(rc.Args) {
+						if sameExpr(rc.Args[bi], call.Args[0]) {
+							matchedRecv = true
+						}
+						recv = rc.Args[ai]
+					}
+				}
 			}
 			self := sameLoc(info, dest, recv)
 			// pointer idiom: tmp := P.Add(a); P = &tmp
@@ -167,7 +177,7 @@ func FindAccums(p *core.Program, fd *core.FuncDecl) []Accum {
 			}
 			switch {
 			case matchedRecv:
-				acc.Matched, acc.How = true, "receiver is MatchPrecision(addend)"
+				acc.Matched, acc.How = true, "receiver is raised to the addend's precision in the same expression"
 			case i > 0:
 				if ps, ok := list[i-1].(*ast.AssignStmt); ok && len(ps.Lhs) == 1 && len(ps.Rhs) == 1 && sameLoc(info, ps.Lhs[0], recv) {
 					if pc, ok := ast.Unparen(ps.Rhs[0]).(*ast.CallExpr); ok {
